@@ -51,6 +51,9 @@ type Opts struct {
 	SpecCheck bool `json:"spec_check"`
 	// Fuzz > 0: single-node fuzzing with that many steps instead of a cluster run (fuzz.go)
 	Fuzz int `json:"fuzz,omitempty"`
+	// IDMul (nodefuzz): node ids are i*IDMul; SpreadIDMul spreads 1..7 over the 64-bit range (cluster runs carry
+	// the scaled ids in Voters/Learners directly)
+	IDMul uint64 `json:"id_mul,omitempty"`
 	// Script replaces the random scheduler (see scenario.go)
 	Script []string `json:"script,omitempty"`
 	// Converge > 0: after Steps random actions run a fault-free suffix of that many election timeouts (C15)
@@ -100,6 +103,9 @@ type Cluster struct {
 	TraceLog   []string
 	quiesce    bool
 }
+
+// SpreadIDMul: i*SpreadIDMul for i in 1..7 covers the 64-bit id space (ids differ by >= 2^61, up to 0xE000...07)
+const SpreadIDMul uint64 = 0x2000000000000001
 
 func pick[T any](r *rand.Rand, xs []T) T { return xs[r.Intn(len(xs))] }
 
